@@ -8,7 +8,7 @@ import SlipVerif.Model.JsonText
   The model has a SEN writer of its own (quotes dropped only for words of letters, digits and
   underscores that start with a letter or an underscore and are not `null` / `true` / `false`;
   items separated by a blank) and a SEN reader (a bare token runs up to the next delimiter; a token
-  that starts like a number must be a number).
+  that starts with a digit or a sign must be a number).
 
   Core Lean only.
 -/
@@ -61,7 +61,7 @@ def tokValue (tok : List Char) : Except PErr J :=
   else match tok with
     | [] => .error .badChar
     | c :: _ =>
-      if isDig c || c == '-' || c == '+' || c == '.' then classify tok
+      if isDig c || c == '-' || c == '+' then classify tok
       else .ok (str (String.ofList tok))
 
 /-! ### writer -/
